@@ -102,6 +102,9 @@ def check_agreement(S: ApiSession, univ, o: Obs, ctx):
         o.res.setdefault("problems", []).append(f"probe fence not acknowledged ({ctx})")
         return None
     o.bump("probes_compared", len(univ) + 1)
+    if S.duplicates:
+        o.V.append({"mech": "probe_delivered_twice", "detail": f"{ctx}: client reports subscribed={sorted(sub)}; probes of types {sorted(set(S.duplicates))} "
+                                                               f"arrived more than once on its socket"})
     if ALL in sub:
         expect = set(univ + [FOREIGN])
     else:
